@@ -20,10 +20,13 @@ var (
 		rune('\r'):   `#\Return`,
 		rune('\t'):   `#\Tab`,
 		rune('\x7f'): `#\Rubout`,
+		rune(0):      `#\Null`,
 	}
 	runeMap = map[string]Character{
 		"backspace": Character('\b'),
 		"newline":   Character('\n'),
+		"nul":       Character(0),
+		"null":      Character(0),
 		"page":      Character('\f'),
 		"return":    Character('\r'),
 		"rubout":    Character('\x7f'),
@@ -47,7 +50,7 @@ func ReadCharacter(src []byte) (c Character) {
 	default:
 		var ok bool
 		if c, ok = runeMap[string(bytes.ToLower(src))]; ok {
-			break
+			return
 		}
 		if src[0] == 'u' || src[0] == 'U' {
 			if 7 < len(src) {
